@@ -3,8 +3,8 @@
 import json, os, re, sys, hashlib
 
 VERIF = "/verif"
-REPO = "/repo"
-OUT = os.path.join(VERIF, ".cache", "ovl")
+REPO = os.environ.get("VERIF_REPO", "/repo")
+OUT = os.environ.get("VERIF_OVL", os.path.join(VERIF, ".cache", "ovl"))
 GEN = os.path.join(OUT, "gen")
 os.makedirs(GEN, exist_ok=True)
 replace = {}
